@@ -47,8 +47,23 @@ def run(rep):
     rep.run(incidence)
     rep.run(rxnside)
     rep.run(side_owns_its_dict)
+    rep.run(no_flattening)
     rep.run(mol_guards)
     rep.run(netfold)
+
+
+def no_flattening(rep):
+    """the store keeps every reaction's own coefficients: a side handed on to another constructor must not be read as a list of labels"""
+    from ..rules.rxnside import flattening_sites
+    n = 0
+    for q, fi in sorted(rep.repo.module(HG).funcs.items()):
+        if not q.startswith(CLS) or ".<locals>." in q:
+            continue
+        for node, why in flattening_sites(rep.repo, fi):
+            n += 1
+            rep.ob("O15.4", "R3a", fi, False, node, "a reaction keeps its own stoichiometry when it is copied into another store: " + why, node=node)
+    if not n:
+        rep.ob("O15.4", "R3a", f"{HG}:{CLS}*", True, "no RXNSide is re-normalised as an iterable", "a reaction keeps its own stoichiometry when it is copied into another store")
 
 
 # ------------------------------------------------------------------ O15.2: a side's coefficient dict belongs to that side alone
